@@ -12,6 +12,7 @@ use crate::tape::Tape;
 
 pub const F_BYTES: &str = "C13-parser-resolver-spans-are-byte-offsets";
 pub const F_FOREIGN: &str = "C13-span-in-foreign-source";
+pub const F_ESCAPES: &str = "C13-interpolation-span-after-escapes";
 
 #[derive(Clone, Debug, Serialize, Deserialize)]
 pub struct Case {
@@ -40,7 +41,14 @@ pub fn gen_case(t: &mut Tape) -> Case {
     let mut p = c.prog.clone();
     p.surface.newlines = t.chance(1, 2);
     let base = print::program(&p).trim_end().to_string();
-    let (class, fault): (&str, String) = match t.choose(14) {
+    let (class, fault): (&str, String) = match t.choose(19) {
+        // an unknown name inside an interpolated string; escape sequences after / before the
+        // placeholder (the string's text is shorter than its spelling)
+        14 => ("resolution", " | derive {zz = f\"{zzz_col}: \\t\\n\"}".into()),
+        15 => ("resolution", " | derive {zz = s\"REPLACE({zzz_col}, '\\t', '\\x41\\x42')\"}".into()),
+        16 => ("resolution", " | derive {zz = f\"{s}-{zzz_col} \\\"x\\\" \\\"y\\\"\"}".into()),
+        17 => ("resolution", " | derive {zz = f\"\\t\\t{zzz_col}\"}".into()),
+        18 => ("resolution", " | derive {zz = s\"\\x41\\x42({zzz_col})\"}".into()),
         0 => ("lexical", " | filter s == \"unterminated".into()),
         1 => ("lexical", " | derive {zz = 1 ^ 2}".into()),
         2 => ("lexical", " | derive {zz = 'abc}".into()),
@@ -231,6 +239,32 @@ pub fn check(c: &Case, known: &Known) -> Outcome {
             o.verdict = Verdict::Known(F_FOREIGN.into(), format!("{} -> {}", c.fault.trim(), a[0].reason.chars().take(60).collect::<String>()));
         }
         return o;
+    }
+    // an unknown name that occurs once in the source: the span of its error points at it
+    for name in ["zzz_col", "zzz_unknown_fn"] {
+        if src_a.matches(name).count() != 1 {
+            continue;
+        }
+        for e in a.iter().filter(|e| e.reason.contains(name) && e.reason.starts_with("Unknown name")) {
+            let Some((s0, e0)) = e.span else { continue };
+            let text: String = src_a.chars().skip(s0).take(e0 - s0).collect();
+            out.classes.push("unknown_name_span_checked".into());
+            if !text.contains(name) {
+                let mut o = Outcome::fail(
+                    "the span of an `Unknown name` error does not cover the name",
+                    json!({"source": src_a, "reason": e.reason, "span": [s0, e0], "text_under_span": text}),
+                );
+                let before_placeholder = c.fault.contains("\\t\\t{zzz") || c.fault.contains("\\x42({zzz");
+                let multibyte_before = src_a.chars().take(e0).any(|c| c.len_utf8() > 1);
+                if multibyte_before && known.is_open(F_BYTES) {
+                    // the generated body itself contains multi-byte text before the error
+                    o.verdict = Verdict::Known(F_BYTES.into(), format!("span covers `{text}` (multi-byte text before it)"));
+                } else if before_placeholder && known.is_open(F_ESCAPES) {
+                    o.verdict = Verdict::Known(F_ESCAPES.into(), format!("span covers `{text}`"));
+                }
+                return o;
+            }
+        }
     }
     // the fault must be blamed near where it was injected (character range of the fault text)
     let fault_start = src_a.chars().count() - c.fault.chars().count() - 1;
